@@ -718,6 +718,78 @@ def _(m):
     T.swizzleRanks = swizzleRanks
 
 
+# ------------------------------------------------------------------------------- round-7 oracles (history-dependent)
+@mutant("c10_dump_names_the_tensor_after_the_file", "C10")
+def _(m):
+    import os as _os
+    T = m["Tensor"]
+    orig = T.dump
+
+    def dump(self, filename):
+        if not self.getName():
+            self.setName(_os.path.splitext(_os.path.basename(str(filename)))[0])
+        return orig(self, filename)
+    T.dump = dump
+
+
+@mutant("c13_fiber2dict_remembered_per_fiber", "C13")
+def _(m):
+    F = m["Fiber"]
+    orig = F.fiber2dict
+
+    def fiber2dict(self):
+        memo = self.__dict__.get("_as_dict")
+        if memo is not None and memo[0] == (len(self.coords), tuple(map(repr, self.coords))):
+            return memo[1]
+        d = orig(self)
+        self.__dict__["_as_dict"] = ((len(self.coords), tuple(map(repr, self.coords))), d)
+        return d
+    F.fiber2dict = fiber2dict
+
+
+@mutant("c15_rank_name_remembered_on_the_fiber", "C15")
+def _(m):
+    it = m["iterators"]
+    patch_modfunc(it, "_prep_metrics_inc", "    rank = str(fiber.getRankAttrs().getId())",
+                  "    try:\n        rank = fiber._loop_rank\n    except AttributeError:\n        rank = fiber._loop_rank = str(fiber.getRankAttrs().getId())")
+
+
+@mutant("c16_trace_position_index_kept_per_operand", "C16")
+def _(m):
+    it = m["iterators"]
+    patch_modfunc(it, "_trace_pos", "    try:\n        pos = fiber.getPosition(coord)\n    except TypeError:\n        pos = None",
+                  "    idx = fiber.__dict__.get(\"_coord_index\")\n    if idx is None:\n        try:\n            idx = fiber.__dict__[\"_coord_index\"] = {c: i for i, c in enumerate(fiber.coords)}\n        except TypeError:\n            idx = {}\n    pos = idx.get(coord) if not isinstance(coord, list) else None")
+
+
+@mutant("c17_format_element_footprints_fixed_at_construction", "C17")
+def _(m):
+    F = __import__("fibertree.model.format", fromlist=["Format"]).Format
+    oinit, oget = F.__init__, F.getElem
+
+    def __init__(self, tensor, spec):
+        oinit(self, tensor, spec)
+        self._elem = {(r, t): oget(self, r, t) for r in tensor.getRankIds() for t in ("coord", "payload", "elem")}
+
+    def getElem(self, rank, type_):
+        return self._elem[(rank, type_)] if (rank, type_) in getattr(self, "_elem", {}) else oget(self, rank, type_)
+    F.__init__, F.getElem = __init__, getElem
+
+
+@mutant("c19_iterrange_returns_past_the_end", "C19")
+def _(m):
+    it = m["iterators"]
+    patch_modfunc(it, "iterRange", "        if end is not None and coord >= end:\n            break", "        if end is not None and coord >= end:\n            return",
+                  also=(m["Fiber"],))
+
+
+@mutant("c06_plain_loop_leaves_a_saved_position", "C06")
+def _(m):
+    it = m["iterators"]
+    patch_modfunc(it, "iterRange", "                if start_pos is not None:\n                    self.setSavedPos(i + j, distance=j)",
+                  "                if start_pos is not None or (tick and not self.isLazy()):\n                    self.setSavedPos(i + j, distance=j)",
+                  also=(m["Fiber"],))
+
+
 def apply(name):
     if name not in MUTANTS:
         raise SystemExit(f"unknown mutant {name}; known: {sorted(MUTANTS)}")
